@@ -560,6 +560,9 @@ func (fr *Frame) applyContract(site ssa.Instruction, k *FuncContract, ce callee,
 		env.results = append(env.results, cval{t: v, typ: t, sort: vc.sortOf(t)})
 	}
 	env.evalLets(k)
+	for _, gs := range k.GhostSets {
+		env.applyGhostSet(gs, st)
+	}
 	for _, en := range k.Ensures {
 		if en.OnPanic && false {
 			continue
@@ -918,6 +921,16 @@ func (vc *VC) modsOfCall(x ssa.CallInstruction, ms *modSet, depth int, fr *Frame
 		}
 		for _, m := range k.Modifies {
 			vs, ok := vc.modVarsOfExpr(m, fn, k, c.Signature())
+			if !ok {
+				ms.all = true
+				return
+			}
+			for _, v := range vs {
+				ms.vars[v] = true
+			}
+		}
+		for _, gs := range k.GhostSets {
+			vs, ok := vc.modVarsOfExpr(gs.Loc, fn, k, c.Signature())
 			if !ok {
 				ms.all = true
 				return
